@@ -9,8 +9,8 @@
      Conforms   the observed verdicts are the ones the rules prescribe for the projection: reject everywhere when a rule
                 is violated - with the store digest and best block of the node unchanged -, accept everywhere when none
                 is; never a panic; consensus.Process never writes;
-     ClassOK    violated rules all of the consensus-error kind => IsCritical everywhere (a change is drift, not a
-                violation).
+     ClassOK    violated rules all of the consensus-error kind => IsCritical everywhere (the class decides whether the
+                node treats the sender as faulty or retries: a change is a violation).
    BaseFee events (replay of the TLC-exported base-fee cases, see MC_BlockRulesBaseFee) are judged by recomputing the
    recurrence from the logged parent fields.
    On a line that is not consumed the reason is printed as  NONCONFORMING <line> <reason> .                         *)
@@ -29,8 +29,12 @@ ExpC(c, v) == IF v # {} /\ v \subseteq CriticalRules THEN "critical" ELSE "any"
 \* (the rebuilt base block is the real packer's block: the driver's expectation says nothing about it, the rules judge it)
 Coherent(c, v) ==
   (c.kind = "mutant" /\ c.var # "rebuilt_identity") =>
+     /\ <<c.rule, c.var>> \in CatKeys
      /\ c.goexpect = ExpV(c, v)
      /\ c.goexpect = "reject" => c.rule \in v
+     \* single-rule-ness of the REAL mutant: nothing is broken but the named rule and what the catalogue declares
+     \* unavoidable for this departure - otherwise a dropped check would hide behind the second broken rule
+     /\ c.goexpect = "reject" => v \subseteq ({c.rule} \cup CatOf(<<c.rule, c.var>>)[4])
 
 ConformsKnown(c, v) ==
   LET exp == ExpV(c, v)
@@ -54,7 +58,7 @@ Reason(c) ==
   ELSE LET v == Violated(c)
        IN IF ~Coherent(c, v) THEN <<"drift:catalogue", c.rule, c.var, ExpV(c, v), v>>
           ELSE IF ~ConformsKnown(c, v) THEN <<"violation", c.rule, c.var, ExpV(c, v), v>>
-          ELSE IF ~ClassOK(c, v) THEN <<"drift:class", c.rule, c.var, ExpC(c, v), v>>
+          ELSE IF ~ClassOK(c, v) THEN <<"violation:class", c.rule, c.var, ExpC(c, v), v>>
           ELSE <<"ok">>
 
 CaseOK(c) ==
@@ -67,7 +71,7 @@ BaseFeeExp(e)  == IF Eq(e.cand, ChildBaseFee(e.par.gl, e.par.gu, e.par.bf)) THEN
 BaseFeeOK(e)   == e.fresh = BaseFeeExp(e) /\ e.warm = BaseFeeExp(e) /\ e.store = "same"
 BaseFeeClass(e) == BaseFeeExp(e) = "reject" => {e.cfresh, e.cwarm} = {"critical"}
 BaseFeeReason(e) == IF ~BaseFeeOK(e) THEN <<"violation", e.rule, e.var, BaseFeeExp(e), {"base_fee_value"}>>
-                    ELSE <<"drift:class", e.rule, e.var, "critical", {"base_fee_value"}>>
+                    ELSE <<"violation:class", e.rule, e.var, "critical", {"base_fee_value"}>>
 
 Init == HWMInit /\ l = 1
 
